@@ -13,7 +13,7 @@ echo "== $ID  demo_dest=$dest  demo_cmd=$cmd"
 # overlay for tun/client
 echo '<!doctype html>' > /tmp/sv/ui_index.html
 echo "{\"Replace\":{\"$WT/tun/client/ui/build/index.html\":\"/tmp/sv/ui_index.html\"}}" > /tmp/sv/$ID.overlay.json
-cmd=$(python3 -c "import sys,re; c=sys.argv[1]; c=re.split(r'\s{3}\(', c)[0]; print(c.replace('/tmp/seed2/'+sys.argv[2], sys.argv[3]).replace('/tmp/seed2/ui_index.html','/tmp/sv/ui_index.html').replace('/tmp/seed/'+sys.argv[2], sys.argv[3]).replace('/tmp/seed/ui_index.html', '/tmp/sv/ui_index.html'))" "$cmd" "$ID" "$WT")
+cmd=$(python3 -c "import sys,re; c=sys.argv[1]; c=re.split(r'\s{3}\(', c)[0]; c=re.sub(r'/tmp/seed\d*/'+sys.argv[2]+r'\.overlay\.json', '/tmp/sv/'+sys.argv[2]+'.overlay.json', c); c=re.sub(r'/tmp/seed\d*/'+sys.argv[2]+r'(?![\w.])', sys.argv[3], c); c=re.sub(r'/tmp/seed\d*/ui_index.html', '/tmp/sv/ui_index.html', c); print(c)" "$cmd" "$ID" "$WT")
 demo_files=$(ls $SRC | grep -v "patch.diff\|meta.json")
 place() { for f in $demo_files; do if [ -n "$dest" ] && [ $(echo $demo_files | wc -w) = 1 ]; then mkdir -p $WT/$(dirname $dest); cp $SRC/$f $WT/$dest; else mkdir -p $WT/$(dirname $dest); cp $SRC/$f $WT/$(dirname $dest)/$f; fi; done; }
 place
